@@ -5,6 +5,7 @@ Events (JSON-able lists):
   ["conn", slot]                     TCP connect of slot (accepted by the next round that sees it)
   ["send", slot, hex]                slot writes these bytes
   ["fin", slot] / ["rst", slot]      slot closes / resets its connection
+  ["waitdeath", slot, how]           slot (a logger) goes away while the hub next waits for it to become writable
   ["round", order, [slots...]]       one manager round: service-order choice, non-writable slots
   ["settle"]                         default rounds until nothing is readable
 
@@ -81,6 +82,10 @@ class Env:
         elif kind == "rst":
             self.w.clients[ev[1]].rst()
             self.s.clients[ev[1]].sock.reset()
+        elif kind == "waitdeath":
+            # the peer of this (logger) slot goes away while the hub is waiting for it to become writable
+            self.w.wait_deaths[ev[1]] = ev[2]
+            self.s.wait_deaths[ev[1]] = ev[2]
         elif kind == "round":
             self._round(ev[1], ev[2])
         elif kind == "settle":
